@@ -139,6 +139,25 @@ def hook(ex, func, argv, frame):
         if not ex.branch(and_(le(start, end), le(end, len(s.items)))):
             raise Panic('slice index out of range')
         return True, slice_from(ex, slice_to(ex, s, end), start)
+    if g in ('core::slice::<impl [u8]>::iter', 'core::slice::<impl [T]>::iter') and isinstance(deref(a[0]) if isinstance(a[0], Ref) else a[0], (ArrSlice, Tuple)):
+        s = deref(a[0]) if isinstance(a[0], Ref) else a[0]
+        return True, Opaque('arrpositer', items=list(s.items))
+    if g == '<std::slice::Iter as std::iter::Iterator>::position' and isinstance(deref(a[0]), Opaque) and deref(a[0]).kind == 'arrpositer':
+        it = deref(a[0])
+        for k, item in enumerate(it.items):
+            r = models.call_closure(ex, a[1], [Ref(Cell(item))])
+            if ex.branch(r):
+                return True, Some(k)
+        return True, NoneV()
+    if re.match(r'^<\[u8; \d+\] as std::ops::Index>::index$', g) or (g in ('<[u8] as std::ops::Index>::index', '<[T] as std::ops::Index>::index') and isinstance(deref(a[0]) if isinstance(a[0], Ref) else a[0], Tuple)):
+        s = deref(a[0]) if isinstance(a[0], Ref) else a[0]
+        s = ArrSlice(s.items) if isinstance(s, Tuple) else s
+        r = a[1]
+        start = r.get('start') if 'start' in r.names else 0
+        end = r.get('end') if 'end' in r.names else len(s.items)
+        if not ex.branch(and_(le(start, end), le(end, len(s.items)))):
+            raise Panic('slice index out of range')
+        return True, slice_from(ex, slice_to(ex, s, end), start)
     if g == '<std::io::ErrorKind as std::convert::Into>::into' or (g.endswith('as std::convert::Into>::into') and 'ErrorKind' in f):
         return True, Opaque('ioerror', k=a[0])
     if g == 'std::vec::Vec::with_capacity' or g == 'std::vec::Vec::new':
